@@ -235,8 +235,10 @@ func VerifC19_Purge() {
 	// versions known from an index only are not on disk: none, or a run of one
 	// or two versions anywhere in the list (thorough: any subset)
 	gapAt, gapLen := cnt, 2
-	if !rt.Thorough() && cnt <= 4 {
-		// (quick tier: with five versions all are on disk)
+	anySubset := rt.Thorough() && cnt <= 4
+	if !anySubset && (cnt <= 4 || rt.Thorough()) {
+		// (quick tier: with five versions all are on disk; thorough tier: any
+		// subset with up to four versions, a run of two with five or six)
 		gapAt = rt.Choice("unavailable-from", cnt+1)
 	}
 	// the versions were added newest first (as a selection leaves them), or
@@ -250,7 +252,7 @@ func VerifC19_Purge() {
 		rv := addVersion(res, rank, "v"+string(rune('0'+i)))
 		// purging is paused while blacklisted versions exist: covered by one flag
 		rv.Blacklisted = false
-		if rt.Thorough() {
+		if anySubset {
 			rv.Available = rt.Bool("available" + string(rune('0'+i)))
 		} else {
 			rv.Available = !(i >= gapAt && i < gapAt+gapLen)
